@@ -23,6 +23,46 @@ type PropSpec struct {
 	Assumptions []string `json:"assumptions"`
 	Bounded     []string `json:"bounded"`
 	Title       string   `json:"title"`
+	// bounded stand-ins: test files under /verif/bounded run against the real package through an overlay; labelled
+	// bounded in the evidence and never counted among the proved obligations
+	BoundedTests []BoundedTest `json:"bounded_tests"`
+}
+
+type BoundedTest struct {
+	Name  string `json:"name"`  // class name reported: bounded:<name>
+	Pkg   string `json:"pkg"`   // package directory relative to the repository
+	File  string `json:"file"`  // file under /verif/bounded
+	Test  string `json:"test"`  // test function
+	Bound string `json:"bound"` // the stated bound
+}
+
+// runBounded executes one bounded stand-in. The test prints "BOUNDED-CASES <n>" when it ran to the end and
+// "BOUNDED-FAIL <input> <what>" for each failing case.
+func runBounded(repo string, bt BoundedTest, thorough bool) (cases int, fails []string, out string) {
+	tmp, _ := os.MkdirTemp("", "gocv-bounded")
+	defer os.RemoveAll(tmp)
+	pkgDir := filepath.Join(repo, bt.Pkg)
+	ov, _ := json.Marshal(map[string]interface{}{"Replace": map[string]string{filepath.Join(pkgDir, "gocv_bounded_test.go"): filepath.Join(verifRoot, "bounded", bt.File)}})
+	ovf := filepath.Join(tmp, "ov.json")
+	os.WriteFile(ovf, ov, 0o644)
+	cmd := exec.Command("bash", "-c", fmt.Sprintf("cd %s && go test -overlay %s -vet=off -count=1 -timeout 300s -run '^%s$' -v .", pkgDir, ovf, bt.Test))
+	cmd.Env = append(os.Environ(), "GOFLAGS=-mod=mod", "GOPROXY=off")
+	if thorough {
+		cmd.Env = append(cmd.Env, "GOCV_THOROUGH=1")
+	}
+	b, _ := cmd.CombinedOutput()
+	out = string(b)
+	cases = -1
+	for _, l := range strings.Split(out, "\n") {
+		l = strings.TrimSpace(l)
+		if strings.HasPrefix(l, "BOUNDED-CASES ") {
+			fmt.Sscanf(strings.TrimPrefix(l, "BOUNDED-CASES "), "%d", &cases)
+		}
+		if strings.HasPrefix(l, "BOUNDED-FAIL ") {
+			fails = append(fails, strings.TrimPrefix(l, "BOUNDED-FAIL "))
+		}
+	}
+	return
 }
 
 type KnownFinding struct {
@@ -327,6 +367,31 @@ func checkMain(args []string) {
 			violate(rp, true)
 		}
 	}
+	var boundedReports []map[string]interface{}
+	for _, bt := range ps.BoundedTests {
+		cases, fails, out := runBounded(*repo, bt, *tier == "thorough")
+		st := "held on every case"
+		if cases < 0 || len(fails) > 0 {
+			rp := filepath.Join(verifRoot, "replays", *prop+"_bounded_"+mangle(bt.Name)+".json")
+			m := map[string]interface{}{"property": *prop, "bounded_standin": bt.Name, "bound": bt.Bound, "failing_cases": fails, "output": trunc(out, 20000),
+				"replay": fmt.Sprintf("cd /repo/%s && go test -overlay <{Replace: gocv_bounded_test.go -> /verif/bounded/%s}> -vet=off -run '^%s$' -v .", bt.Pkg, bt.File, bt.Test)}
+			if cases < 0 && len(fails) == 0 {
+				m["note"] = "no-failing-input-found: the bounded stand-in did not run to the end (it no longer compiles against the package, or it crashed)"
+				st = "did not run"
+			} else {
+				st = fmt.Sprintf("%d failing cases", len(fails))
+			}
+			b, _ := json.MarshalIndent(m, "", " ")
+			os.WriteFile(rp, b, 0o644)
+			violate(rp, len(fails) == 0)
+		}
+		var sample interface{}
+		if len(fails) > 0 {
+			sample = fails[0]
+		}
+		boundedReports = append(boundedReports, map[string]interface{}{"name": "bounded:" + bt.Name, "label": "bounded (not a proof; not counted in obligations/discharged)", "bound": bt.Bound, "cases": cases, "result": st, "first_failure": sample})
+		fmt.Printf("bounded stand-in %s: %d cases, %s\n", bt.Name, cases, st)
+	}
 	if *verbose {
 		for _, r := range reports {
 			fmt.Printf("%-7s %-7s %5.2fs %s\n", r.Status, r.Solver, r.Time, r.Name)
@@ -339,7 +404,7 @@ func checkMain(args []string) {
 		fmt.Println("note: not translated: " + e)
 	}
 	wall := time.Since(t0).Seconds()
-	writeEvidence(evPath, *prop, *tier, seed, reports, frs, ps, prog, wall, violations, append(undecided, errs...), &evCounts{claimed: claimed, discharged: discharged, known: knownLines, base: base})
+	writeEvidence(evPath, *prop, *tier, seed, reports, frs, ps, prog, wall, violations, append(undecided, errs...), &evCounts{claimed: claimed, discharged: discharged, known: knownLines, base: base, bounded: boundedReports})
 	fmt.Printf("%s %s: %d obligations claimed, %d discharged, %d known findings, %d violations, %.1fs\n", *prop, *tier, claimed, discharged, len(knownLines), violations, wall)
 	if violations > 0 {
 		os.Exit(1)
@@ -369,6 +434,7 @@ type evCounts struct {
 	claimed, discharged int
 	known               []string
 	base                map[string]bool
+	bounded             []map[string]interface{}
 }
 
 func writeEvidence(path, prop, tier string, seed int, reports []oblReport, frs []*FuncResult, ps *PropSpec, prog *Program, wall float64, violations int, undecided []string, ec *evCounts) {
@@ -385,6 +451,7 @@ func writeEvidence(path, prop, tier string, seed int, reports []oblReport, frs [
 		Undecided   []string                 `json:"undecided_unclaimed"`
 		Known       []string                 `json:"known_findings"`
 		Bounded     []string                 `json:"bounded_standins"`
+		BoundedRuns []map[string]interface{} `json:"bounded_runs,omitempty"`
 		Notes       []string                 `json:"unmodelled_or_uncontracted"`
 		Dropped     []string                 `json:"extraction_drops"`
 		ByKind      map[string]int           `json:"obligations_by_kind"`
@@ -429,6 +496,7 @@ func writeEvidence(path, prop, tier string, seed int, reports []oblReport, frs [
 		c.Obligations = ec.claimed
 		c.Discharged = ec.discharged
 		c.Known = ec.known
+		c.BoundedRuns = ec.bounded
 	}
 	for _, r := range reports {
 		if ec != nil && !ec.base[r.Class] {
